@@ -56,6 +56,8 @@ class FakeTransport:
         from ramses_tx.packet import Packet
 
         self.frames.append(frame)
+        if not getattr(self, "echo", True):
+            return
         echo = frame.replace(HGI, self._gwy or HGI)
         pkt = Packet.from_port(dt.now(), f"000 {echo}")
         self._loop.call_soon(self._protocol.pkt_received, pkt)
@@ -167,6 +169,51 @@ def run(chk: Check) -> None:
                             f"known={known} block={block} enforce={enforce}: asked {phase} (gateway {now_active}, was {pre_active}), {src}->{dst} "
                             f"{'send' if sending else 'receive'} is {'passed' if got else 'dropped'}, must be {'passed' if want else 'dropped'}",
                             {"op": "filter.history", "phase": phase, "known": known, "block": block, "enforce": enforce, "active": active, "src": src, "dst": dst, "sending": sending})
+            # ... nor of what the sender is doing: with QoS on and a command of ours on the air (written, its echo outstanding) the
+            # same questions get the same answers, and a packet received in that window is delivered or dropped as at any other time
+            delivered4: list = []
+            p4 = protocol_factory(delivered4.append, disable_qos=False, enforce_include_list=enforce_impl, exclude_list=exc_l, include_list=inc)
+            t4 = FakeTransport(p4, loop, active)
+            t4.echo = False
+            p4.connection_made(t4, ramses=True)
+            p4.resume_writing()
+            dst4 = next((d for d in (LISTED, UNLISTED) if oracle(HGI, d, known, block, enforce, p4._active_hgi, True)), None)
+            if dst4 is not None:
+                from ramses_tx.command import Command as _Cmd
+
+                task = asyncio.ensure_future(p4.send_cmd(_Cmd(f"RQ --- {HGI} {dst4} --:------ 0016 002 00FF")))
+                for _ in range(6):
+                    await asyncio.sleep(0)
+                if t4.frames:      # on the air, no echo yet
+                    for src in UNIVERSE:
+                        for dst in UNIVERSE:
+                            chk.evaluations += 1
+                            got = bool(p4._is_wanted_addrs(src, dst, sending=False))
+                            want = oracle(src, dst, known, block, enforce, p4._active_hgi, False)
+                            if got != want:
+                                chk.violation(f"filter.echo_outstanding:{'overblock' if want else 'leak'}:rx",
+                                              f"known={known} block={block} enforce={enforce} active={p4._active_hgi}: with a command of ours awaiting its echo, "
+                                              f"{src}->{dst} receive is {'passed' if got else 'dropped'}, must be {'passed' if want else 'dropped'}",
+                                              {"op": "filter.echo_outstanding", "known": known, "block": block, "enforce": enforce, "active": active, "src": src, "dst": dst})
+                    for src, dst in ((HGI, LISTED), (LISTED, HGI), (UNLISTED, LISTED)):
+                        fr = frame_for(src, dst)
+                        if fr is None:
+                            continue
+                        delivered4.clear()
+                        p4.pkt_received(Packet.from_port(dt.now(), f"045 {fr}"))
+                        for _ in range(4):
+                            await asyncio.sleep(0)
+                        chk.evaluations += 1
+                        want = oracle(src, dst, known, block, enforce, p4._active_hgi, False)
+                        if bool(delivered4) != want:
+                            chk.violation(f"delivery.echo_outstanding:{'overblock' if want else 'leak'}", f"known={known} block={block} enforce={enforce}: with a command of ours "
+                                          f"awaiting its echo, {fr!r} is {'delivered' if delivered4 else 'dropped'}", {"op": "delivery.echo_outstanding", "frame": fr, "known": known, "block": block, "enforce": enforce, "active": active})
+                    chk.count("echo_outstanding.configs")
+                task.cancel()
+                try:
+                    await task
+                except BaseException:  # noqa: BLE001
+                    pass
             for _ in range(12):
                 src, dst = rnd.choice(UNIVERSE[:7]), rnd.choice(UNIVERSE)
                 fr = frame_for(src, dst)
